@@ -58,6 +58,7 @@ fn stats_json(s: &Stats) -> J {
         .set("sleeps_simulated", J::u(s.sleeps_simulated))
         .set("fairness_switches", J::u(s.fairness_switches))
         .set("spin_yields", J::u(s.spin_yields))
+        .set("rare_site_suspensions", J::u(s.rare_site_suspensions))
 }
 
 fn fnv_u32s(d: &[u32]) -> u64 {
